@@ -332,6 +332,72 @@ func aliasCase(s *cases.Set, r *cq.RNG, op int, fopts bool, i int) {
 	}
 }
 
+// sliceCase: the caller keeps the []Payload SLICE it put into the frame (one message fanned out to several
+// devices, a retransmission with FCnt + 1): the same slice is put into three frames (other DevAddr, FCnt + 1, other
+// key) which are encrypted in turn. Every call is an ordinary compared case whose frame term is printed from the
+// caller's original payload objects; after each call the slice must still hold those objects with their bytes.
+func sliceCase(s *cases.Set, r *cq.RNG, fopts bool, i int) {
+	mts := []lorawan.MType{lorawan.UnconfirmedDataUp, lorawan.UnconfirmedDataDown, lorawan.ConfirmedDataUp, lorawan.ConfirmedDataDown}
+	mt := mts[i%4]
+	up := mt == lorawan.UnconfirmedDataUp || mt == lorawan.ConfirmedDataUp
+	var pls []lorawan.Payload
+	if fopts {
+		pls = framefmt.ValidCmds(r, up, 1+r.Intn(12))
+		if len(pls) == 0 || i%3 == 0 {
+			pls = []lorawan.Payload{&lorawan.DataPayload{Bytes: r.Bytes(1 + r.Intn(15))}}
+		}
+	} else {
+		pls = make([]lorawan.Payload, 1, 1+i%3)
+		pls[0] = &lorawan.DataPayload{Bytes: r.Bytes(1 + r.Intn(40))}
+	}
+	orig := append([]lorawan.Payload(nil), pls...)
+	var origBytes [][]byte
+	for _, e := range orig {
+		b, _ := e.MarshalBinary()
+		origBytes = append(origBytes, append([]byte{}, b...))
+	}
+	base := framefmt.DataFrame(r, framefmt.Opt{MType: mt, Port: 1 + r.Intn(200), FCntHigh: i%3 != 0})
+	op := 2
+	if fopts {
+		op = 0
+	}
+	for pass := 0; pass < 3; pass++ {
+		build := func(l []lorawan.Payload) lorawan.PHYPayload {
+			m := *base.MACPayload.(*lorawan.MACPayload)
+			m.FHDR.FCnt += uint32(pass)
+			if pass == 2 {
+				m.FHDR.DevAddr[i%4] ^= 0x21
+			}
+			if fopts {
+				m.FHDR.FOpts = l
+			} else {
+				m.FRMPayload = l
+			}
+			q := base
+			q.MACPayload = &m
+			return q
+		}
+		t := framefmt.Phy(build(append([]lorawan.Payload(nil), orig...)), 0)
+		q := build(pls)
+		k := key(r)
+		noise.Step(nr)
+		o := apply(op, &q, k)
+		ks := fmt.Sprintf("slice:%s:frame%d:key=%s:%s", opNames[op], pass+1, hx(k[:]), t)
+		rp := map[string]interface{}{"api": opAPI[op] + " on frame " + fmt.Sprint(pass+1) + " of 3 that were built from one []Payload slice kept by the caller (cap " + fmt.Sprint(cap(pls)) + ")",
+			"key": hx(k[:]), "frame": t, "observed": o}
+		s.Add(cases.Case{Term: fmt.Sprintf("CMeth %s %s %s %s", opNames[op], cq.Bytes(k[:]), t, o), Key: ks, Kind: "meth-slice", Nontrivial: true, Replay: rp})
+		changed := len(pls) != len(orig)
+		for j := 0; j < len(orig) && j < len(pls) && !changed; j++ {
+			b, _ := pls[j].MarshalBinary()
+			changed = pls[j] != orig[j] || !bytes.Equal(b, origBytes[j])
+		}
+		if changed {
+			s.Fail(cases.GoFail{Key: "caller-slice-modified:" + ks, What: opAPI[op] + " wrote into the caller's []Payload slice (or payload objects): the next frame built from it carries ciphertext as plaintext", Replay: rp})
+			copy(pls, orig)
+		}
+	}
+}
+
 func aesCase(s *cases.Set, k, b []byte, name string) {
 	blk, err := aes.NewCipher(k)
 	if err != nil {
@@ -422,7 +488,7 @@ func main() {
 	r := cq.NewRNG(seed)
 	nr = cq.NewRNG(seed ^ 0x9e3779b97f4a7c15)
 	s := cases.New("C03", dir, "LW.Corr.C03",
-		"FIPS-197 C.1 first; corpus: 16-byte FOpts through EncryptFOpts/DecryptFOpts (C03-1), FPort 0 with empty FRMPayload through DecryptFRMPayload (C05-1). func EncryptFRMPayload: payload lengths 0,1,15,16,17,31,32,33,255,256 + random (thorough: every length 0..255 in both directions + random up to 600), one 4112-byte payload (257 blocks: counter byte wraps), counters >= 2^16 in 70%, both directions; func EncryptFOpts: every length 0..15 x aFCntDown x direction, 16..20 (error). PHYPayload methods: frames with MAC commands in FOpts (0..15 bytes) and application payload, commands on port 0, no port, raw FOpts 16..20 bytes, an unencodable command in FOpts, raw (undecodable) bytes, FPort 0 together with FOpts (counter choice boundary), FPort absent with a non-empty FRMPayload (lengths 1..40, both directions, Encrypt and Decrypt); Encrypt then Decrypt chains; wrong payload types. Caller's memory: frames whose single payload object (FRMPayload, or a raw FOpts element) is kept by the caller and lives inside a guarded buffer with spare capacity 0/5/16/31: after Encrypt/Decrypt the buffer is unchanged, the stored payload shares no memory with it, and the same object put into a second frame (other DevAddr, FCnt + 1) gives that frame's model ciphertext (frame terms printed from a private copy of the plaintext). History: unrelated library calls (internal/noise) before every compared call; neighbour families of the exported functions run back to back (base call, then the same call with one argument changed: single FCnt bits 16, 31, one more high and one low bit, FCnt + 2^16, direction, one DevAddr bit, key zeroed, one key bit, a longer payload with the same prefix, aFCntDown; then the base call again), each compared with model and specification; every exported-function call is repeated three times later in the process (reverse, same, shuffled order) and must give its first result. Go-side: applying a function twice restores the input. A case is non-trivial unless its byte string is empty.")
+		"FIPS-197 C.1 first; corpus: 16-byte FOpts through EncryptFOpts/DecryptFOpts (C03-1), FPort 0 with empty FRMPayload through DecryptFRMPayload (C05-1). func EncryptFRMPayload: payload lengths 0,1,15,16,17,31,32,33,255,256 + random (thorough: every length 0..255 in both directions + random up to 600), one 4112-byte payload (257 blocks: counter byte wraps), counters >= 2^16 in 70%, both directions; func EncryptFOpts: every length 0..15 x aFCntDown x direction, 16..20 (error). PHYPayload methods: frames with MAC commands in FOpts (0..15 bytes) and application payload, commands on port 0, no port, raw FOpts 16..20 bytes, an unencodable command in FOpts, raw (undecodable) bytes, FPort 0 together with FOpts (counter choice boundary), FPort absent with a non-empty FRMPayload (lengths 1..40, both directions, Encrypt and Decrypt); Encrypt then Decrypt chains; wrong payload types. Caller's memory: frames whose single payload object (FRMPayload, or a raw FOpts element) is kept by the caller and lives inside a guarded buffer with spare capacity 0/5/16/31: after Encrypt/Decrypt the buffer is unchanged, the stored payload shares no memory with it, and the same object put into a second frame (other DevAddr, FCnt + 1) gives that frame's model ciphertext (frame terms printed from a private copy of the plaintext). Caller's slices: one []Payload slice (FRMPayload message, or 1-3 FOpts commands / raw FOpts) kept by the caller and put into three frames (FCnt + 1, other DevAddr, other key) that are encrypted in turn - each an ordinary case printed from the original objects; the slice must still hold them afterwards (caller-slice-modified:). Every exported-function call is also repeated from 8 goroutines at once. History: unrelated library calls (internal/noise) before every compared call; neighbour families of the exported functions run back to back (base call, then the same call with one argument changed: single FCnt bits 16, 31, one more high and one low bit, FCnt + 2^16, direction, one DevAddr bit, key zeroed, one key bit, a longer payload with the same prefix, aFCntDown; then the base call again), each compared with model and specification; every exported-function call is repeated three times later in the process (reverse, same, shuffled order) and must give its first result. Go-side: applying a function twice restores the input. A case is non-trivial unless its byte string is empty.")
 	s.ShardSize = 60
 	// official vector
 	fipsKey := make([]byte, 16)
@@ -510,6 +576,7 @@ func main() {
 		}
 		for i := 0; i < na; i++ {
 			aliasCase(s, r, []int{2, 3}[i%2], false, i)
+			sliceCase(s, r, i%2 == 1, i)
 			if i%2 == 0 {
 				aliasCase(s, r, []int{0, 1}[(i/2)%2], true, i)
 			}
@@ -587,6 +654,7 @@ func main() {
 		}
 	}
 	s.ReplayRemembered(nr.Intn, 3, func() { noise.Step(nr) })
+	s.ReplayConcurrently(8, 3, 60*time.Second)
 	if err := s.Finish(); err != nil {
 		fmt.Fprintln(os.Stderr, err)
 		os.Exit(2)
